@@ -31,8 +31,16 @@ ASSUMPTIONS = [
     "oracle 2: a freshly constructed strict Converter over deep copies of the current records (for derived indexes and query answers)",
 ]
 
-FRESH_P = ["x", "y", "X", "zz", "q1", "x.y"]
-FRESH_U = ["n/", "n/x", "m#", "N/", "http://purl.obolibrary.org/obo/X_", "n/x_"]
+# incl. strings whose case variants have another LENGTH (sharp s, ligatures, dotted capital I, ...): matching "up to case" is
+# defined by casefold(), not by comparing equally long strings
+FRESH_P = ["x", "y", "X", "zz", "q1", "x.y", "stra\u00dfe", "\ufb01sh", "\u0130d"]
+FRESH_U = ["n/", "n/x", "m#", "N/", "http://purl.obolibrary.org/obo/X_", "n/x_", "n/stra\u00dfe/", "n/\ufb01/"]
+
+
+def _case_variant(draw, s):
+    """A spelling that differs from s but is equal to it under casefold() - where one exists."""
+    cands = [v for v in (s.swapcase(), s.upper(), s.lower(), s.casefold(), s.title()) if v != s and v.casefold() == s.casefold()]
+    return draw(st.sampled_from(cands)) if cands else s.swapcase()
 
 
 @st.composite
@@ -75,9 +83,9 @@ def new_records(draw, records, delimiter):
     elif shape == "case":
         r = draw(st.sampled_from(records))
         if draw(st.booleans()):
-            p = of(r, "prefix").swapcase()
+            p = _case_variant(draw, of(r, "prefix"))
         else:
-            u = of(r, "uri_prefix").swapcase()
+            u = _case_variant(draw, of(r, "uri_prefix"))
     elif shape == "mix":
         everything = sorted(taken)
         if everything:
